@@ -128,7 +128,7 @@ var vttTagPool = []vttTag{
 	{Name: "c", Classes: []string{"yellow", "bg_blue"}}, {Name: "lang", Annotation: "en"}, {Name: "lang", Annotation: "fr-CA"},
 	{Name: "ruby"}, {Name: "rt"}, {Name: "b", Classes: []string{"loud"}}, {Name: "i", Classes: []string{"x1", "y2", "z3"}},
 	// classes and an annotation on the same tag
-	{Name: "lang", Classes: []string{"formal"}, Annotation: "en-GB"}, {Name: "lang", Classes: []string{"a", "b"}, Annotation: "de"},
+	{Name: "lang", Classes: []string{"formal"}, Annotation: "en-GB"}, {Name: "c", Classes: []string{"speakerOne", "Loud"}}, {Name: "lang", Classes: []string{"Formal"}, Annotation: "en-GB"}, {Name: "lang", Classes: []string{"a", "b"}, Annotation: "de"},
 }
 
 func vttGenModel(r *fw.Rand, forWriter bool) vttModel {
@@ -185,6 +185,9 @@ func vttGenModel(r *fw.Rand, forWriter bool) vttModel {
 		c := vttCue{Start: s, End: e, ID: k + 1}
 		if r.P(1, 6) {
 			c.ID = r.Range(1, 99999)
+			if r.P(1, 3) {
+				c.ID = fw.Pick(r, []int{2147483647, 2147483648, 4294967296, 1700000000000}) + k // counters and time stamps used as identifiers
+			}
 		}
 		for j := 0; j < r.Intn(3)*r.Intn(2); j++ {
 			c.Comments = append(c.Comments, genText(r, textOpts{amp: true, gt: false, maxWords: 4}))
@@ -214,7 +217,7 @@ func vttGenModel(r *fw.Rand, forWriter bool) vttModel {
 			if r.P(1, 4) {
 				line.Voice = fw.Pick(r, []string{"Bob", "Esme Mrs Jones", "中文", "Ünï Cöde", "Tom & Jerry", "R&D", "O'Neil \"Mac\""})
 			}
-			txt := genText(r, textOpts{amp: true, lt: true, gt: true, nbsp: true, braces: true, comma: true, ampEntity: true, maxWords: 5})
+			txt := genText(r, textOpts{amp: true, lt: true, gt: true, nbsp: true, braces: true, comma: true, ampEntity: true, bsN: true, maxWords: 5})
 			pieces := splitRuns(r, txt, r.Range(1, 4))
 			// a text line that begins like a block of another kind: inside a cue it is text all the same
 			keyword := r.P(1, 12)
